@@ -12,7 +12,7 @@ VERIF = os.path.dirname(os.path.dirname(os.path.abspath(__file__)))
 REPO = os.environ.get("VERIF_REPO", "/repo")
 LEAN = os.path.join(VERIF, "lean")
 WORK = os.path.join(VERIF, "_work")
-EVID = os.path.join(VERIF, "evidence")
+EVID = os.environ.get("VERIF_EVID", os.path.join(VERIF, "evidence"))   # seeded runs write elsewhere
 REPLAYS = os.path.join(VERIF, "replays")
 FMODEL = os.path.join(LEAN, ".lake", "build", "bin", "fmodel")
 ALLOWED_AXIOMS = {"propext", "Classical.choice", "Quot.sound"}
@@ -82,14 +82,14 @@ def write_if_changed(path, text):
     return True
 
 
-def lake_build(targets=("FlatccModel", "fmodel")):
+def lake_build(targets=("FlatccModel", "fmodel"), locked=False):
     """Returns (ok, log). Serialised across concurrently running checks."""
-    lk = _lock()
+    lk = None if locked else _lock()
     try:
         rc, out, err = sh(["lake", "build", *targets], timeout=3000, cwd=LEAN)
         return rc == 0, out + err
     finally:
-        lk.close()
+        if lk: lk.close()
 
 
 def lean_sources():
@@ -450,17 +450,19 @@ def write_evidence(ctx, theorems, extra=None):
 
 def proof_stage(ctx):
     """Steps 2+3: build, audit. Returns theorem list; reports violations for broken obligations."""
+    # regenerate + build under ONE lock: the theorems are checked against the data extracted from this run's tree even when
+    # several checks (seeded runs against scratch trees) run concurrently
+    lk = _lock()
     try:
-        import gen_consts
-        lk = _lock()
         try:
+            import gen_consts
             gen_consts.regenerate()
-        finally:
-            lk.close()
-    except BuildError as e:
-        violation(ctx, "consts_probe.json", {"kind": "translator-failed", "log": str(e)}, no_failing_input=True)
-        return None
-    ok, log = lake_build()
+        except BuildError as e:
+            violation(ctx, "consts_probe.json", {"kind": "translator-failed", "log": str(e)}, no_failing_input=True)
+            return None
+        ok, log = lake_build(locked=True)
+    finally:
+        lk.close()
     if not ok:
         # which modules failed?
         failed = re.findall(r"^- (\S+)", log, re.M)
